@@ -287,6 +287,9 @@ class SymStr(object):
         self.n = n
         self.maxlen = len(self.chars) if maxlen is None else min(maxlen, len(self.chars))
         self._memo = None
+        if len(self.chars) >= (1 << (IW - 1)) and (is_sym(n) or any(is_sym(c) for c in self.chars)):
+            # positions in such a string do not fit the engine's signed integers: never wrap silently
+            raise core.OutOfBound("symbolic string longer than %d characters" % ((1 << (IW - 1)) - 1))
 
     # ---- construction
     @property
@@ -664,9 +667,10 @@ class SymStr(object):
     def splitlines(self):
         if self.is_concrete():
             return self.as_str().splitlines()
-        # bound: a symbolic string never contains a line break unless it is a SymText
-        for i in range(self.cap):
-            core.assume(z.Or(z.ge(i, self.n), z.Not(z.in_set_c(self.chars[i], (10, 13, 11, 12, 28, 29, 30, 0x85)))))
+        # bound: a symbolic string holding a line break (other than a SymText) ends the path as out of bound
+        nobreak = z.And([z.Or(z.ge(i, self.n), z.Not(z.in_set_c(self.chars[i], (10, 13, 11, 12, 28, 29, 30, 0x85)))) for i in range(self.cap)])
+        if not B_decide(nobreak):
+            raise core.OutOfBound("line break inside a symbolic string given to splitlines()")
         if B_decide(self.truth()):
             return [self]
         return []
